@@ -3,6 +3,8 @@ C06 — Errors propagate as values; violations cannot be caught.
 Theorems over the core evaluator (XrayModel/Core.lean).
 -/
 import XrayProofs.CoreErrors
+import XrayProofs.CoreXErrors
+import XrayProofs.CoreXTco
 namespace XrayModel.C06
 open XrayModel.Core
 
@@ -471,5 +473,663 @@ example : builtin 6 {} fr0 "display" [boom] false {} = (.val (.err "boom"), { ou
   (display_error_silent 5 {} fr0 boom false {} {}).1 "boom" rfl
 example : builtin 6 {} fr0 "display" [.int 7] false {} = (.val (.int 7), { out := ["7"] }) :=
   (display_error_silent 5 {} fr0 (.int 7) false {} {}).2.1 (.int 7) "7" rfl (by decide)
+
+end XrayModel.C06
+
+
+/-! # The extended evaluator (XrayModel/CoreX.lean)
+
+Unions (`U::tag(e)`, `e!:tag`, `e?:tag`), optionals (`some`, `none`, `value`, `has_value`, and the
+short-circuit natives `map_or`, `or`, `and` on optionals), `get` / index sugar, `push`.  The theorems
+above are ported unchanged in statement (suffix `_x`; helper files `XrayProofs/CoreX*.lean` are ports
+of the helper files), `nonhandlers_propagate_x` / `short_circuit_skips_x` / `only_handlers_inspect_x`
+cover the extended native table, and the new constructs get their own statements at the end. -/
+namespace XrayModel.C06
+open XrayModel.CoreX
+
+/-- A user-defined function whose argument list contains an error value yields the leftmost such
+error; its body does not run: no output, no counter change, whatever the limits. -/
+theorem user_call_propagates_x (fuel : Nat) (cfg : Cfg) (h : Nat) (c : Val) (args : List Val) (st : St)
+    (e : Val) (he : firstErr args = some e) :
+    callUser (fuel + 1) cfg h c args st = (.val e, st) ∧ e.isErr = true := by
+  refine ⟨?_, firstErr_isErr he⟩
+  simp [callUser, he]
+
+/-- Arguments, tuple/struct fields and array items that reach a callee or a constructor are never
+error values: collections never contain errors. -/
+theorem collections_error_free_x (fuel : Nat) (cfg : Cfg) (fr : Frame) (es : List Expr) (tail : Bool)
+    (st st' : St) (vs : List Val) :
+    (eval (fuel + 1) cfg fr (.tup es) tail st = (.val (.tup vs), st') → ∀ v ∈ vs, v.isErr = false) ∧
+    (eval (fuel + 1) cfg fr (.arr es) tail st = (.val (.arr vs), st') → ∀ v ∈ vs, v.isErr = false) := by
+  constructor <;> intro h <;> simp only [eval] at h <;> split at h
+  · simp only [Prod.mk.injEq, Res.val.injEq, Val.tup.injEq] at h
+    obtain ⟨h1, h2⟩ := h; subst h1; subst h2
+    exact evalList_ok_noErr _ _ _ _ _ _ _ ‹_›
+  · rename_i r st1 hr
+    have := evalList_ok_noErr fuel cfg fr es st st1
+    -- an `.error r` outcome of the list is returned as is; it can only be a tuple value if `r` is,
+    -- which `evalList` never produces
+    exact absurd h (by
+      intro hh
+      simp only [Prod.mk.injEq] at hh
+      obtain ⟨h1, _⟩ := hh
+      subst h1
+      exact evalList_error_not_value fuel cfg fr es st st1 _ hr (by simp [Val.isErr]))
+  · simp only [Prod.mk.injEq, Res.val.injEq, Val.arr.injEq] at h
+    obtain ⟨h1, h2⟩ := h; subst h1; subst h2
+    exact evalList_ok_noErr _ _ _ _ _ _ _ ‹_›
+  · rename_i r st1 hr
+    exact absurd h (by
+      intro hh
+      simp only [Prod.mk.injEq] at hh
+      obtain ⟨h1, _⟩ := hh
+      subst h1
+      exact evalList_error_not_value fuel cfg fr es st st1 _ hr (by simp [Val.isErr]))
+
+/-! ## 1. The leftmost error of an argument list is the result
+
+`SeqVals cfg fr n pre st vs st1` (XrayProofs/CoreErrors.lean) says: the expressions `pre`, evaluated
+left to right from state `st` at exactly the fuel levels `evalList n` uses, all yield non-error
+values `vs`, and `st1` is the state reached.  In all theorems of this section the list is
+`pre ++ e :: post`, `pre` yields values, and `e` yields the error value `.err m` in state `st1`,
+leaving state `st2`.  The result never depends on `post`, and the final state is `st2`: nothing of
+`post` is evaluated (no output, no call counted), and no callee runs. -/
+
+/-- `evalList` stops at the leftmost error value: it reports that error in exactly the state after
+the erroring expression; `post` is not evaluated. -/
+theorem evalList_leftmost_error_x (cfg : Cfg) (fr : Frame) (k : Nat) (pre post : List Expr) (e : Expr)
+    (st st1 st2 : St) (vs : List Val) (m : String)
+    (hpre : SeqVals cfg fr (k + 1 + pre.length) pre st vs st1)
+    (he : eval k cfg fr e false st1 = (.val (.err m), st2)) :
+    evalList (k + 1 + pre.length) cfg fr (pre ++ e :: post) st = (.error (.val (.err m)), st2) := by
+  rw [evalList_append _ hpre]
+  simp [evalList, he]
+
+/-- Every strict native (`add`, `sub`, …, `to_str`, `len`, `error`), whatever its arity, returns the
+leftmost error among its arguments — at the level of `builtin` and of the call expression. -/
+theorem strict_native_propagates_x (cfg : Cfg) (fr : Frame) (k : Nat) (pre post : List Expr) (e : Expr)
+    (st st1 st2 : St) (vs : List Val) (m : String) (f : String) (tail : Bool)
+    (hf : isStrictPrim f = true) (hfree : fr.get f = none)
+    (hpre : SeqVals cfg fr (k + 1 + pre.length) pre st vs st1)
+    (he : eval k cfg fr e false st1 = (.val (.err m), st2)) :
+    builtin (k + 1 + pre.length + 1) cfg fr f (pre ++ e :: post) tail st = (.val (.err m), st2) ∧
+    eval (k + 1 + pre.length + 3) cfg fr (.call f (pre ++ e :: post)) tail st = (.val (.err m), st2) := by
+  have hl := evalList_leftmost_error_x cfg fr k pre post e st st1 st2 vs m hpre he
+  have hb : builtin (k + 1 + pre.length + 1) cfg fr f (pre ++ e :: post) tail st = (.val (.err m), st2) := by
+    rw [builtin_strict hf]; simp [strictCall, hf, hl]
+  exact ⟨hb, by rw [eval_call_unbound hfree]; exact hb⟩
+
+/-- The same without fuel bookkeeping: if the expressions of `pre` evaluate (each with some fuel, in
+sequence) to non-error values and then `e` evaluates (with some fuel) to the error value `.err m`,
+then with every sufficiently large fuel `evalList` of `pre ++ e :: post` reports that error in the
+state after `e`, and so does the call of any strict native on these arguments. -/
+theorem leftmost_error_enough_fuel_x (cfg : Cfg) (fr : Frame) (j : Nat) (pre post : List Expr) (e : Expr)
+    (st st1 st2 : St) (vs : List Val) (m : String)
+    (hpre : SeqValsAny cfg fr pre st vs st1)
+    (he : eval j cfg fr e false st1 = (.val (.err m), st2)) :
+    ∃ N, ∀ n, N ≤ n →
+      evalList n cfg fr (pre ++ e :: post) st = (.error (.val (.err m)), st2) ∧
+      (∀ f tail, isStrictPrim f = true → fr.get f = none →
+        eval (n + 3) cfg fr (.call f (pre ++ e :: post)) tail st = (.val (.err m), st2)) := by
+  obtain ⟨N0, hN0⟩ := hpre.enough
+  refine ⟨max N0 (j + 1 + pre.length), fun n hn => ?_⟩
+  obtain ⟨k, rfl⟩ : ∃ k, n = k + 1 + pre.length := ⟨n - 1 - pre.length, by omega⟩
+  have hk : eval k cfg fr e false st1 = (.val (.err m), st2) := eval_mono (by omega) he (by simp)
+  have hs := hN0 (k + 1 + pre.length) (by omega)
+  have hl := evalList_leftmost_error_x cfg fr k pre post e st st1 st2 vs m hs hk
+  refine ⟨hl, fun f tail hf hfree => ?_⟩
+  rw [eval_call_unbound hfree, builtin_strict hf]
+  simp [strictCall, hf, hl]
+
+/-- Tuple/struct and array construction with an erroring item yields the leftmost such error. -/
+theorem constructor_propagates_x (cfg : Cfg) (fr : Frame) (k : Nat) (pre post : List Expr) (e : Expr)
+    (st st1 st2 : St) (vs : List Val) (m : String) (tail : Bool)
+    (hpre : SeqVals cfg fr (k + 1 + pre.length) pre st vs st1)
+    (he : eval k cfg fr e false st1 = (.val (.err m), st2)) :
+    eval (k + 1 + pre.length + 1) cfg fr (.tup (pre ++ e :: post)) tail st = (.val (.err m), st2) ∧
+    eval (k + 1 + pre.length + 1) cfg fr (.arr (pre ++ e :: post)) tail st = (.val (.err m), st2) := by
+  have hl := evalList_leftmost_error_x cfg fr k pre post e st st1 st2 vs m hpre he
+  simp [eval, hl]
+
+/-- A call of a user function value (directly, by a name bound in the frame, or through a computed
+callee) whose arguments contain an error value yields the leftmost such error.  `callUser` is not
+reached: the state (output and call counter) is the state after the erroring argument. -/
+theorem user_call_arg_propagates_x (cfg : Cfg) (fr : Frame) (k : Nat) (pre post : List Expr) (e : Expr)
+    (st st1 st2 : St) (vs : List Val) (m : String) (tail : Bool)
+    (fn : Func) (dflts : List Val) (env : List (String × Val)) (g : String)
+    (hpre : SeqVals cfg fr (k + 1 + pre.length) pre st vs st1)
+    (he : eval k cfg fr e false st1 = (.val (.err m), st2)) :
+    callVal (k + 1 + pre.length + 1) cfg fr (.clos fn dflts env) (pre ++ e :: post) tail st = (.val (.err m), st2) ∧
+    (lookup g fr.env = some (.clos fn dflts env) →
+      eval (k + 1 + pre.length + 3) cfg fr (.call g (pre ++ e :: post)) tail st = (.val (.err m), st2)) ∧
+    (∀ fe st0, eval (k + 1 + pre.length + 1) cfg fr fe false st0 = (.val (.clos fn dflts env), st) →
+      eval (k + 1 + pre.length + 2) cfg fr (.callE fe (pre ++ e :: post)) tail st0 = (.val (.err m), st2)) := by
+  have hl := evalList_leftmost_error_x cfg fr k pre post e st st1 st2 vs m hpre he
+  have hc : callVal (k + 1 + pre.length + 1) cfg fr (.clos fn dflts env) (pre ++ e :: post) tail st = (.val (.err m), st2) := by
+    simp [callVal, hl]
+  refine ⟨hc, ?_, ?_⟩
+  · intro hg
+    rw [eval_call_bound hg]; exact hc
+  · intro fe st0 hfe
+    rw [eval]; simp only [hfe]; exact hc
+
+/-- The tail special case (`self(args)` in tail position with TCO on): an erroring argument is the
+result — an error value, not a `.tail` request to the trampoline. -/
+theorem tail_call_arg_propagates_x (cfg : Cfg) (fr : Frame) (k : Nat) (pre post : List Expr) (e : Expr)
+    (st st1 st2 : St) (vs : List Val) (m : String) (g : String) (c : Val)
+    (hself : fr.self = some (g, c)) (hfree : lookup g fr.env = none) (htco : cfg.tco = true)
+    (hpre : SeqVals cfg fr (k + 1 + pre.length) pre st vs st1)
+    (he : eval k cfg fr e false st1 = (.val (.err m), st2)) :
+    eval (k + 1 + pre.length + 1) cfg fr (.call g (pre ++ e :: post)) true st = (.val (.err m), st2) := by
+  have hl := evalList_leftmost_error_x cfg fr k pre post e st st1 st2 vs m hpre he
+  simp [eval, hself, hfree, htco, hl]
+
+/-- A call whose callee is an error value (computed callee, or a name bound to an error value)
+yields that error; the arguments are not evaluated (state unchanged after the callee). -/
+theorem callee_error_propagates_x (cfg : Cfg) (fr : Frame) (n : Nat) (fe : Expr) (args : List Expr)
+    (tail : Bool) (st st' : St) (m : String) :
+    (eval n cfg fr fe false st = (.val (.err m), st') →
+      eval (n + 1) cfg fr (.callE fe args) tail st = (.val (.err m), st')) ∧
+    callVal (n + 1) cfg fr (.err m) args tail st = (.val (.err m), st) ∧
+    (∀ g, lookup g fr.env = some (.err m) →
+      eval (n + 3) cfg fr (.call g args) tail st = (.val (.err m), st)) := by
+  refine ⟨?_, ?_, ?_⟩
+  · intro h; simp [eval, h]
+  · simp [callVal]
+  · intro g hg; rw [eval_call_bound hg]; simp [callVal]
+
+
+/-! ### the hypotheses are satisfiable: `add(1, error("boomX"), display(7))` and friends -/
+
+def fr0X : Frame := { env := [], self := none, height := 0 }
+def boomX : Expr := .call "error" [.str "boomX"]
+def disp7X : Expr := .call "display" [.int 7]
+/-- `fn f(x, unused) { x - 7 }` -/
+def fSubX : Func := .mk (some "f") [.mk "x" none, .mk "unused" none] [] (.call "sub" [.var "x", .int 7])
+def frFX : Frame := { env := [("f", .clos fSubX [] [])], self := none, height := 0 }
+
+example : evalList 7 {} fr0X [.int 1, boomX, disp7X] {} = (.error (.val (.err "boomX")), {}) :=
+  evalList_leftmost_error_x {} fr0X 5 [.int 1] [disp7X] boomX {} {} {} [.int 1] "boomX"
+    (.cons rfl rfl (.nil _ _)) rfl
+
+example : eval 10 {} fr0X (.call "add" [.int 1, boomX, disp7X]) false {} = (.val (.err "boomX"), {}) :=
+  (strict_native_propagates_x {} fr0X 5 [.int 1] [disp7X] boomX {} {} {} [.int 1] "boomX" "add" false rfl rfl
+    (.cons rfl rfl (.nil _ _)) rfl).2
+
+example : eval 8 {} fr0X (.arr [.int 1, boomX, disp7X]) false {} = (.val (.err "boomX"), {}) :=
+  (constructor_propagates_x {} fr0X 5 [.int 1] [disp7X] boomX {} {} {} [.int 1] "boomX" false
+    (.cons rfl rfl (.nil _ _)) rfl).2
+
+/-- `f(5, error("boomX"))` with `fn f(x, unused) { x - 7 }` is the error, not `-2`; with a call limit
+of 1 the call would be a violation if it were made — it is not made -/
+example : eval 10 { callLimit := some 1 } frFX (.call "f" [.int 5, boomX]) false {} = (.val (.err "boomX"), {}) :=
+  (user_call_arg_propagates_x { callLimit := some 1 } frFX 5 [.int 5] [] boomX {} {} {} [.int 5] "boomX" false
+    fSubX [] [] "f" (.cons rfl rfl (.nil _ _)) rfl).2.1 rfl
+
+/-! ## 2. Which natives can see an error value -/
+
+/-- `if`, `and`, `or`, `display`: an error value in the first (always evaluated) argument is the
+result, in the state after that argument — the other arguments are not evaluated. -/
+theorem nonhandlers_propagate_x (n : Nat) (cfg : Cfg) (fr : Frame) (a b c : Expr) (tail : Bool)
+    (st st' : St) (m : String) (h : eval n cfg fr a false st = (.val (.err m), st')) :
+    builtin (n + 1) cfg fr "if" [a, b, c] tail st = (.val (.err m), st') ∧
+    builtin (n + 1) cfg fr "and" [a, b] tail st = (.val (.err m), st') ∧
+    builtin (n + 1) cfg fr "or" [a, b] tail st = (.val (.err m), st') ∧
+    builtin (n + 1) cfg fr "display" [a] tail st = (.val (.err m), st') ∧
+    builtin (n + 1) cfg fr "map_or" [a, b, c] tail st = (.val (.err m), st') := by
+  simp [builtin, h]
+
+/-- The two handlers: `if_error(a, b)` with `a` an error value is `b` (evaluated in the state after
+`a`, tail slot forwarded), with `a` a non-error value is that value and `b` is not evaluated;
+`is_error(a)` is the boolean "`a` is an error value". -/
+theorem handlers_inspect_x (n : Nat) (cfg : Cfg) (fr : Frame) (a b : Expr) (tail : Bool) (st st' : St) :
+    (∀ m, eval n cfg fr a false st = (.val (.err m), st') →
+      builtin (n + 1) cfg fr "if_error" [a, b] tail st = eval n cfg fr b tail st') ∧
+    (∀ v, eval n cfg fr a false st = (.val v, st') → v.isErr = false →
+      builtin (n + 1) cfg fr "if_error" [a, b] tail st = (.val v, st')) ∧
+    (∀ v, eval n cfg fr a false st = (.val v, st') →
+      builtin (n + 1) cfg fr "is_error" [a] tail st = (.val (.bool v.isErr), st')) := by
+  refine ⟨?_, ?_, ?_⟩
+  · intro m h; simp [builtin, h]
+  · intro v h hv; cases v <;> simp_all [builtin, Val.isErr]
+  · intro v h; simp [builtin, h]
+
+/-- (with the optional arms: `and(some _, b)` is `b`, `and(none, b)` is `none`; `or(some v, b)` is `v`,
+`or(none, b)` is `b`; `map_or(none, f, d)` is `d` — each an equation with the selected evaluation, tail slot
+forwarded.)  The short-circuit natives evaluate the selected argument only: the result is literally the
+evaluation of the selected argument in the state after the first one, whatever the other
+argument is (it contributes neither output nor calls nor errors). -/
+theorem short_circuit_skips_x (n : Nat) (cfg : Cfg) (fr : Frame) (c a b : Expr) (tail : Bool) (st st' : St) :
+    (eval n cfg fr c false st = (.val (.bool true), st') →
+      builtin (n + 1) cfg fr "if" [c, a, b] tail st = eval n cfg fr a tail st' ∧
+      builtin (n + 1) cfg fr "and" [c, b] tail st = eval n cfg fr b tail st' ∧
+      builtin (n + 1) cfg fr "or" [c, b] tail st = (.val (.bool true), st')) ∧
+    (eval n cfg fr c false st = (.val (.bool false), st') →
+      builtin (n + 1) cfg fr "if" [c, a, b] tail st = eval n cfg fr b tail st' ∧
+      builtin (n + 1) cfg fr "and" [c, b] tail st = (.val (.bool false), st') ∧
+      builtin (n + 1) cfg fr "or" [c, b] tail st = eval n cfg fr b tail st') ∧
+    (∀ v, eval n cfg fr c false st = (.val (.some v), st') →
+      builtin (n + 1) cfg fr "and" [c, b] tail st = eval n cfg fr b tail st' ∧
+      builtin (n + 1) cfg fr "or" [c, b] tail st = (.val v, st')) ∧
+    (eval n cfg fr c false st = (.val .none, st') →
+      builtin (n + 1) cfg fr "and" [c, b] tail st = (.val .none, st') ∧
+      builtin (n + 1) cfg fr "or" [c, b] tail st = eval n cfg fr b tail st' ∧
+      builtin (n + 1) cfg fr "map_or" [c, a, b] tail st = eval n cfg fr b tail st') := by
+  refine ⟨?_, ?_, ?_, ?_⟩
+  · intro h; simp [builtin, h]
+  · intro h; simp [builtin, h]
+  · intro v h; simp [builtin, h]
+  · intro h; simp [builtin, h]
+
+/-- (extended table: special forms `if/3 and/2 or/2 if_error/2 is_error/1 display/1 map_or/3` — `and`/`or`
+dispatching on bool / optional —, 22 strict natives, anything else unknown.)
+Only `if_error` and `is_error` turn an error value of their first argument into something
+else: for every native `f` (special form, strict native or unknown name) and every argument list,
+if the first argument evaluates (with whatever fuel) to the error value `.err m` and the native
+call returns a value at all, then either `f` is one of the two handlers or the value returned is
+that very error in the state right after the first argument. -/
+theorem only_handlers_inspect_x (n j : Nat) (cfg : Cfg) (fr : Frame) (f : String) (a : Expr) (rest : List Expr)
+    (tail : Bool) (st st' st'' : St) (m : String) (v : Val)
+    (hcall : builtin (n + 1) cfg fr f (a :: rest) tail st = (.val v, st''))
+    (ha : eval j cfg fr a false st = (.val (.err m), st')) :
+    f = "if_error" ∨ f = "is_error" ∨ (v = .err m ∧ st'' = st') := by
+  -- whatever fuel the native gives to its first argument, the outcome is `.err m` or out of fuel
+  have key : ∀ i, eval i cfg fr a false st = (.val (.err m), st') ∨ ∃ s, eval i cfg fr a false st = (.oof, s) := by
+    intro i
+    rcases hi : eval i cfg fr a false st with ⟨r, s⟩
+    by_cases hr : r = .oof
+    · subst hr; exact .inr ⟨s, rfl⟩
+    · obtain ⟨h1, h2⟩ := eval_det hi ha hr (by simp)
+      subst h1; subst h2; exact .inl rfl
+  rcases builtin_shape f (a :: rest) with ⟨c, x, y, rfl, hargs⟩ | ⟨x, y, rfl, hargs⟩ | ⟨x, y, rfl, hargs⟩ |
+    ⟨x, y, rfl, hargs⟩ | ⟨x, rfl, hargs⟩ | ⟨x, rfl, hargs⟩ | ⟨x, y, z, rfl, hargs⟩ | hd
+  · cases hargs
+    rcases key n with h | ⟨s, h⟩ <;> simp_all [builtin]
+  · cases hargs
+    rcases key n with h | ⟨s, h⟩ <;> simp_all [builtin]
+  · cases hargs
+    rcases key n with h | ⟨s, h⟩ <;> simp_all [builtin]
+  · exact .inl rfl
+  · exact .inr (.inl rfl)
+  · cases hargs
+    rcases key n with h | ⟨s, h⟩ <;> simp_all [builtin]
+  · cases hargs
+    rcases key n with h | ⟨s, h⟩ <;> simp_all [builtin]
+  · rw [hd] at hcall
+    unfold strictCall at hcall
+    split at hcall
+    · cases n with
+      | zero => simp [evalList] at hcall
+      | succ i =>
+        rcases key i with h | ⟨s, h⟩ <;> simp_all [evalList]
+    · simp at hcall
+
+
+/-- `if_error(error("boomX"), 3)` is `3`, `is_error(error("boomX"))` is `true`; `and(error("boomX"), display(7))`
+is the error and nothing is displayed; `if(true, 1, display(7))` is `1` and nothing is displayed -/
+example : builtin 6 {} fr0X "if_error" [boomX, .int 3] false {} = (.val (.int 3), {}) :=
+  ((handlers_inspect_x 5 {} fr0X boomX (.int 3) false {} {}).1 "boomX" rfl).trans rfl
+example : builtin 6 {} fr0X "is_error" [boomX] false {} = (.val (.bool true), {}) :=
+  (handlers_inspect_x 5 {} fr0X boomX boomX false {} {}).2.2 _ rfl
+example : builtin 6 {} fr0X "and" [boomX, disp7X] false {} = (.val (.err "boomX"), {}) :=
+  (nonhandlers_propagate_x 5 {} fr0X boomX disp7X disp7X false {} {} "boomX" rfl).2.1
+example : builtin 6 {} fr0X "if" [.bool true, .int 1, disp7X] false {} = (.val (.int 1), {}) :=
+  (((short_circuit_skips_x 5 {} fr0X (.bool true) (.int 1) disp7X false {} {}).1 rfl).1).trans rfl
+
+/-! ## 3. A violation cannot be caught
+
+`Conf` (XrayProofs/CoreErrors.lean) is an invocation of one of the ten functions of the evaluator,
+`c.viol cfg k s` says that it ends in the violation `k` with state `s` (`(.viol k, s)`, or
+`(.error (.viol k), s)` for the three list-like functions), `Sub cfg c' c` lists every call site of
+the model — `c` performs the sub-evaluation `c'` — each with the path condition under which it is
+reached (39 call sites), and `Within` is the reflexive-transitive closure of `Sub`. -/
+
+/-- One step, for every call site of every function of the evaluator: if a sub-evaluation that an
+invocation performs ends in a violation, the invocation ends in the same violation with the same
+state.  Nothing that would have come after it is evaluated (the state is the sub-evaluation's). -/
+theorem violation_absorbing_step_x (cfg : Cfg) (c' c : Conf) (k : Viol) (s : St)
+    (hsub : Sub cfg c' c) (hv : c'.viol cfg k s) : c.viol cfg k s :=
+  hsub.viol hv
+
+/-- A violation is absorbing along the whole dynamic extent: if an evaluation `c'` that happens
+anywhere inside the evaluation `c` (under any nesting of calls of natives and user functions,
+handlers, constructors, declarations, closure creations, trampoline iterations) ends in the
+violation `k`, then `c` ends in the violation `k`, in the same state. -/
+theorem violation_uncatchable_x (cfg : Cfg) (c' c : Conf) (k : Viol) (s : St)
+    (hin : Within cfg c' c) (hv : c'.viol cfg k s) : c.viol cfg k s :=
+  hin.viol hv
+
+/-- Conversely the list of call sites `Sub` is complete, and violations have exactly three sources:
+whenever an invocation of any of the ten functions ends in a violation, there is an invocation in
+its dynamic extent at which one of the three limit checks tripped (`Origin`: the call counter in
+`callUser`, the depth check or the tail-iteration check in `tramp`) with the same kind and the same
+state — from there it travelled out unchanged.  No native and no language construct produces,
+changes or drops a violation. -/
+theorem violation_only_from_limits_x (cfg : Cfg) (c : Conf) (k : Viol) (s : St) (hv : c.viol cfg k s) :
+    ∃ c', Within cfg c' c ∧ Origin cfg c' k s :=
+  viol_origin hv
+
+/-- The two error handlers do not see a violation: `if_error(a, b)` and `is_error(a)` with `a`
+ending in a violation end in that violation (state unchanged, `b` not evaluated) — at the level of
+the natives and of the call expressions. -/
+theorem violation_uncatchable_handlers_x (n : Nat) (cfg : Cfg) (fr : Frame) (a b : Expr) (tail : Bool)
+    (st st' : St) (k : Viol) (h : eval n cfg fr a false st = (.viol k, st')) :
+    builtin (n + 1) cfg fr "if_error" [a, b] tail st = (.viol k, st') ∧
+    builtin (n + 1) cfg fr "is_error" [a] tail st = (.viol k, st') ∧
+    (fr.get "if_error" = none → eval (n + 3) cfg fr (.call "if_error" [a, b]) tail st = (.viol k, st')) ∧
+    (fr.get "is_error" = none → eval (n + 3) cfg fr (.call "is_error" [a]) tail st = (.viol k, st')) := by
+  have h1 : builtin (n + 1) cfg fr "if_error" [a, b] tail st = (.viol k, st') := by simp [builtin, h]
+  have h2 : builtin (n + 1) cfg fr "is_error" [a] tail st = (.viol k, st') := by simp [builtin, h]
+  refine ⟨h1, h2, ?_, ?_⟩
+  · intro hf; rw [eval_call_unbound hf]; exact h1
+  · intro hf; rw [eval_call_unbound hf]; exact h2
+
+/-- A violation in an item/argument position (after a prefix of values): the list evaluation, the
+tuple and array constructors, every strict native, and the call of a user function value all end in
+that violation, in the state where it happened; the later items are not evaluated and the callee
+does not run. -/
+theorem violation_in_arguments_x (cfg : Cfg) (fr : Frame) (n : Nat) (pre post : List Expr) (e : Expr)
+    (st st1 st2 : St) (vs : List Val) (k : Viol) (tail : Bool)
+    (hpre : SeqVals cfg fr (n + 1 + pre.length) pre st vs st1)
+    (he : eval n cfg fr e false st1 = (.viol k, st2)) :
+    evalList (n + 1 + pre.length) cfg fr (pre ++ e :: post) st = (.error (.viol k), st2) ∧
+    eval (n + 1 + pre.length + 1) cfg fr (.tup (pre ++ e :: post)) tail st = (.viol k, st2) ∧
+    eval (n + 1 + pre.length + 1) cfg fr (.arr (pre ++ e :: post)) tail st = (.viol k, st2) ∧
+    (∀ f, isStrictPrim f = true →
+      builtin (n + 1 + pre.length + 1) cfg fr f (pre ++ e :: post) tail st = (.viol k, st2)) ∧
+    (∀ fn dflts env,
+      callVal (n + 1 + pre.length + 1) cfg fr (.clos fn dflts env) (pre ++ e :: post) tail st = (.viol k, st2)) := by
+  have hl : evalList (n + 1 + pre.length) cfg fr (pre ++ e :: post) st = (.error (.viol k), st2) :=
+    (within_list_item e post hpre).viol (k := k) (s := st2) he
+  refine ⟨hl, ?_, ?_, ?_, ?_⟩
+  · simp [eval, hl]
+  · simp [eval, hl]
+  · intro f hf
+    exact (Sub.strictArgs _ fr f _ tail st hf).viol (k := k) (s := st2) hl
+  · intro fn dflts env
+    simp [callVal, hl]
+
+/-- The host receives it: if any evaluation inside the dynamic extent of the program ends in the
+violation `k`, then `runProgram` returns `.error (.viol k)` — not a frame of bindings — with the
+state (output written, calls counted) at the moment of the violation. -/
+theorem violation_reaches_host_x (fuel : Nat) (cfg : Cfg) (ds : List Decl) (c : Conf) (k : Viol) (s : St)
+    (hin : Within cfg c (.evalDecls fuel { env := [], self := none, height := 0 } ds {}))
+    (hv : c.viol cfg k s) :
+    runProgram fuel cfg ds = (.error (.viol k), s) :=
+  hin.viol hv
+
+/-- In particular for a top-level declaration: if the declarations `pre` succeed and the next
+declaration's right-hand side (or closure creation) ends in a violation, the program ends in that
+violation; the remaining declarations `post` are not evaluated. -/
+theorem toplevel_violation_stops_x (n : Nat) (cfg : Cfg) (pre post : List Decl) (fr1 : Frame) (st1 s : St) (k : Viol)
+    (hpre : SeqDecls cfg (n + 1 + pre.length) { env := [], self := none, height := 0 } pre {} fr1 st1) :
+    (∀ x e, eval n cfg fr1 e false st1 = (.viol k, s) →
+      runProgram (n + 1 + pre.length) cfg (pre ++ .letD x e :: post) = (.error (.viol k), s)) ∧
+    (∀ f, mkClos n cfg fr1 f st1 = (.viol k, s) →
+      runProgram (n + 1 + pre.length) cfg (pre ++ .fnD f :: post) = (.error (.viol k), s)) := by
+  constructor
+  · intro x e he
+    unfold runProgram
+    rw [evalDecls_append _ hpre]
+    simp [evalDecls, he]
+  · intro f hf
+    unfold runProgram
+    rw [evalDecls_append _ hpre]
+    simp [evalDecls, hf]
+
+/-! ### the hypotheses are satisfiable: a call limit of 1 trips on the first user call -/
+
+def cfg1X : Cfg := { callLimit := some 1 }
+/-- `f(1, 2)` -/
+def callFX : Expr := .call "f" [.int 1, .int 2]
+
+/-- the call itself is the violation … -/
+example : eval 8 cfg1X frFX callFX false {} = (.viol .calls, { calls := 1 }) := rfl
+/-- … so `if_error(f(1, 2), 0)` and `is_error(f(1, 2))` are that violation, not `0` / `false` -/
+example : eval 11 cfg1X frFX (.call "if_error" [callFX, .int 0]) false {} = (.viol .calls, { calls := 1 }) :=
+  (violation_uncatchable_handlers_x 8 cfg1X frFX callFX (.int 0) false {} _ .calls rfl).2.2.1 rfl
+example : eval 11 cfg1X frFX (.call "is_error" [callFX]) false {} = (.viol .calls, { calls := 1 }) :=
+  (violation_uncatchable_handlers_x 8 cfg1X frFX callFX (.int 0) false {} _ .calls rfl).2.2.2 rfl
+
+/-- the dynamic extent: the counter check of `callUser` happens inside the evaluation of `f(1, 2)` -/
+example : Within cfg1X (.callUser 5 0 (.clos fSubX [] []) [.int 1, .int 2] {}) (.eval 8 frFX callFX false {}) :=
+  .step (.step (.step (.refl _)
+    (Sub.callBody 5 frFX fSubX [] [] _ false {} _ _ rfl))
+    (Sub.boundCall 6 frFX "f" _ false {} _ rfl))
+    (Sub.namedCall 7 frFX "f" _ false {} (by intro sn sc h; cases h))
+
+/-- `[1, if_error(f(1, 2), 0), display(7)]`: the violation inside the second item is the outcome of
+the array construction; nothing is displayed -/
+example : eval 14 cfg1X frFX (.arr [.int 1, .call "if_error" [callFX, .int 0], disp7X]) false {}
+    = (.viol .calls, { calls := 1 }) :=
+  (violation_in_arguments_x cfg1X frFX 11 [.int 1] [disp7X] _ {} {} _ [.int 1] .calls false
+    (.cons rfl rfl (.nil _ _)) rfl).2.2.1
+
+/-- the program `fn f(x, unused) { x - 7 }  let a = 1;  let b = if_error(f(1, 2), 0);  let c = display(7);`
+under a call limit of 1: the host receives the violation, `c` is not evaluated -/
+example : runProgram 14 cfg1X [.fnD fSubX, .letD "a" (.int 1), .letD "b" (.call "if_error" [callFX, .int 0]),
+      .letD "c" disp7X] = (.error (.viol .calls), { calls := 1 }) :=
+  (toplevel_violation_stops_x 11 cfg1X [.fnD fSubX, .letD "a" (.int 1)] [.letD "c" disp7X]
+    { env := [("a", .int 1), ("f", .clos fSubX [] [])], self := none, height := 0 } {} _ .calls
+    (.fnD rfl rfl (.letD rfl (.nil _ _ _)))).1 "b" _ rfl
+
+
+/-- The syntactic form: `plug C e` is the expression `C[e]`; `Reaches cfg fr C F tail st n tl s` says
+that evaluating `C[·]` (fuel `F`, tail flag `tail`, state `st`) evaluates its hole with fuel `n`,
+tail flag `tl` in state `s` — the items and arguments before the hole are non-error values, the
+hole is the first argument of `if/and/or/if_error/is_error/display` or the argument a short-circuit
+native selects, an argument of a strict native, of a user function (by name, tail self-call, or
+computed callee), a tuple/array item, the tuple of an item access, or a computed callee; contexts
+nest.  If `e` ends in a violation there, so does `C[e]`, with the same state. -/
+theorem violation_uncatchable_ctx_x (cfg : Cfg) (fr : Frame) (C : Ctx) (F n : Nat) (tail tl : Bool) (st s s' : St)
+    (e : Expr) (k : Viol) (hC : Reaches cfg fr C F tail st n tl s)
+    (he : eval n cfg fr e tl s = (.viol k, s')) :
+    eval F cfg fr (plug C e) tail st = (.viol k, s') :=
+  (hC.within e).viol (k := k) (s := s') he
+
+/-- `is_error([1, if_error(□, 0), display(7)])` with `f(1, 2)` in the hole, under a call limit of 1 -/
+example : eval 17 cfg1X frFX
+    (.call "is_error" [.arr [.int 1, .call "if_error" [callFX, .int 0], disp7X]]) false {}
+    = (.viol .calls, { calls := 1 }) :=
+  violation_uncatchable_ctx_x cfg1X frFX
+    (.arg "is_error" [] (.arr [.int 1] (.arg "if_error" [] .hole [.int 0]) [disp7X]) [])
+    17 8 false false {} {} _ callFX .calls
+    (.specialFirst false (.inr (.inr ⟨.inl rfl, rfl⟩)) rfl
+      (.arr false (.cons rfl rfl (.nil _ _))
+        (.specialFirst false (.inr (.inl ⟨.inr (.inr rfl), _, rfl⟩)) rfl (.hole 8 false _))))
+    rfl
+
+
+/-! ## 4. `display` -/
+
+/-- `display` of an error value writes nothing and returns the error; `display` of a printable value
+appends exactly one line (its text) and returns the value; in every other case (violation, stuck,
+out of fuel, unprintable value) it writes nothing. -/
+theorem display_error_silent_x (n : Nat) (cfg : Cfg) (fr : Frame) (a : Expr) (tail : Bool) (st st' : St) :
+    (∀ m, eval n cfg fr a false st = (.val (.err m), st') →
+      builtin (n + 1) cfg fr "display" [a] tail st = (.val (.err m), st')) ∧
+    (∀ v s, eval n cfg fr a false st = (.val v, st') → toStr v = some s →
+      builtin (n + 1) cfg fr "display" [a] tail st = (.val v, { st' with out := st'.out ++ [s] })) ∧
+    (∀ r, eval n cfg fr a false st = (r, st') → (∀ v, r = .val v → toStr v = none) →
+      (builtin (n + 1) cfg fr "display" [a] tail st).2 = st') := by
+  refine ⟨?_, ?_, ?_⟩
+  · intro m h; simp [builtin, h]
+  · intro v s h hs
+    cases v <;> simp_all [builtin, toStr]
+  · intro r h hr
+    rcases r with v | _ | _ | _ | _
+    · have := hr v rfl
+      cases v <;> simp_all [builtin, toStr]
+    all_goals simp [builtin, h]
+
+
+/-- `display(error("boomX"))` leaves the output empty; `display(7)` writes the line `7` -/
+example : builtin 6 {} fr0X "display" [boomX] false {} = (.val (.err "boomX"), { out := [] }) :=
+  (display_error_silent_x 5 {} fr0X boomX false {} {}).1 "boomX" rfl
+example : builtin 6 {} fr0X "display" [.int 7] false {} = (.val (.int 7), { out := ["7"] }) :=
+  (display_error_silent_x 5 {} fr0X (.int 7) false {} {}).2.1 (.int 7) "7" rfl (by decide)
+
+
+
+/-! ### the constructs of the extension -/
+
+/-- Union construction with an erroring payload is that error (no union value is built); `!:` and
+`?:` on an erroring expression are that error. -/
+theorem variant_propagates_x (n : Nat) (cfg : Cfg) (fr : Frame) (e : Expr) (tag : Nat) (tail : Bool)
+    (st st' : St) (m : String) (h : eval n cfg fr e false st = (.val (.err m), st')) :
+    eval (n + 1) cfg fr (.variant tag e) tail st = (.val (.err m), st') ∧
+    eval (n + 1) cfg fr (.memberValue e tag) tail st = (.val (.err m), st') ∧
+    eval (n + 1) cfg fr (.memberOpt e tag) tail st = (.val (.err m), st') := by
+  simp [eval, h]
+
+/-- `some(x)`, `value(o)`, `has_value(o)`, `len(a)`: an erroring argument is the result;
+collection insertion `push(a, x)` and indexing `get(a, i)` (also written `a[i]`): an erroring first
+argument is the result and the second is not evaluated; a non-error first argument and an erroring
+second one give the second's error — nothing is inserted, nothing is indexed. -/
+theorem insertion_propagates_x (n : Nat) (cfg : Cfg) (fr : Frame) (f : String) (a b : Expr) (tail : Bool)
+    (st st1 st2 : St) (m : String) (hfree : fr.get f = none) :
+    (f ∈ ["some", "value", "has_value", "len", "push", "get"] →
+      eval n cfg fr a false st = (.val (.err m), st1) →
+      eval (n + 4) cfg fr (.call f [a]) tail st = (.val (.err m), st1) ∧
+      eval (n + 4) cfg fr (.call f [a, b]) tail st = (.val (.err m), st1)) ∧
+    (f ∈ ["push", "get"] → ∀ v, eval (n + 1) cfg fr a false st = (.val v, st1) → v.isErr = false →
+      eval n cfg fr b false st1 = (.val (.err m), st2) →
+      eval (n + 5) cfg fr (.call f [a, b]) tail st = (.val (.err m), st2)) := by
+  constructor
+  · intro hf ha
+    have hs : isStrictPrim f = true := by
+      simp only [List.mem_cons, List.mem_nil_iff, or_false] at hf
+      rcases hf with rfl | rfl | rfl | rfl | rfl | rfl <;> decide
+    exact ⟨(strict_native_propagates_x cfg fr n [] [] a st st st1 [] m f tail hs hfree (.nil _ _) ha).2,
+      (strict_native_propagates_x cfg fr n [] [b] a st st st1 [] m f tail hs hfree (.nil _ _) ha).2⟩
+  · intro hf v ha hv hb
+    have hs : isStrictPrim f = true := by
+      simp only [List.mem_cons, List.mem_nil_iff, or_false] at hf
+      rcases hf with rfl | rfl <;> decide
+    exact (strict_native_propagates_x cfg fr n [a] [] b st st1 st2 [v] m f tail hs hfree
+      (.cons ha hv (.nil _ _)) hb).2
+
+/-- `!:` gives the payload of the named variant and the error value "value is of incorrect variant"
+for another variant; `?:` gives `some(payload)` / `none`. -/
+theorem member_access_x (n : Nat) (cfg : Cfg) (fr : Frame) (e : Expr) (t tag : Nat) (v : Val) (tail : Bool)
+    (st st' : St) (h : eval n cfg fr e false st = (.val (.variant t v), st')) :
+    eval (n + 1) cfg fr (.memberValue e tag) tail st =
+      (if t = tag then .val v else .val (.err "value is of incorrect variant"), st') ∧
+    eval (n + 1) cfg fr (.memberOpt e tag) tail st = (.val (if t = tag then .some v else .none), st') := by
+  constructor
+  · simp only [eval, h]; split <;> rfl
+  · simp [eval, h]
+
+/-- index normalisation of `get`: `0 ≤ i < len` is item `i`, `-len ≤ i < 0` is item `len + i`,
+`i ≥ len` is the error value "index out of bounds", `i < -len` the error value "index too low". -/
+theorem get_index_x (vs : List Val) (i : Int) :
+    (0 ≤ i → i < vs.length → ∃ v, vs[i.toNat]? = some v ∧ getIdx vs i = .val v) ∧
+    (i < 0 → -(vs.length : Int) ≤ i → ∃ v, vs[(i + vs.length).toNat]? = some v ∧ getIdx vs i = .val v) ∧
+    ((vs.length : Int) ≤ i → getIdx vs i = .val (.err "index out of bounds")) ∧
+    (i < -(vs.length : Int) → getIdx vs i = .val (.err "index too low")) := by
+  refine ⟨?_, ?_, ?_, ?_⟩
+  · intro h0 h1
+    have hlt : i.toNat < vs.length := by omega
+    exact ⟨vs[i.toNat], List.getElem?_eq_getElem hlt, by
+      simp [getIdx, show ¬ i < 0 by omega, List.getElem?_eq_getElem hlt]⟩
+  · intro h0 h1
+    have hlt : (i + vs.length).toNat < vs.length := by omega
+    exact ⟨vs[(i + vs.length).toNat], List.getElem?_eq_getElem hlt, by
+      simp [getIdx, h0, show ¬ (i + vs.length < 0) by omega, List.getElem?_eq_getElem hlt]⟩
+  · intro h
+    have : vs.length ≤ i.toNat := by omega
+    simp [getIdx, show ¬ i < 0 by omega, List.getElem?_eq_none this]
+  · intro h
+    simp [getIdx, show i < 0 by omega, show i + vs.length < 0 by omega]
+
+
+
+/-- The stored value of a union instance, of `some(x)` and the value inserted by `push` are never
+error values (for tuples and arrays: `collections_error_free_x`). -/
+theorem stored_values_error_free_x (n : Nat) (cfg : Cfg) (fr : Frame) (e a x : Expr) (tag t : Nat) (tail : Bool)
+    (st st' : St) (v : Val) (ws : List Val) :
+    (eval (n + 1) cfg fr (.variant tag e) tail st = (.val (.variant t v), st') → v.isErr = false) ∧
+    (builtin (n + 1) cfg fr "some" [e] tail st = (.val (.some v), st') → v.isErr = false) ∧
+    (builtin (n + 1) cfg fr "push" [a, x] tail st = (.val (.arr ws), st') →
+      ∃ vs w, ws = vs ++ [w] ∧ w.isErr = false) := by
+  refine ⟨?_, ?_, ?_⟩
+  · intro h
+    simp only [eval] at h
+    split at h
+    · cases h
+    · rename_i w s1 hne _
+      simp only [Prod.mk.injEq, Res.val.injEq, Val.variant.injEq] at h
+      obtain ⟨⟨_, rfl⟩, _⟩ := h
+      cases w <;> simp_all [Val.isErr]
+    · cases h
+    · rename_i _ hv _
+      exact absurd (hv _ _ h) id
+  · intro h
+    rw [builtin_strict (by decide)] at h
+    unfold strictCall at h
+    simp only [show isStrictPrim "some" = true by decide, if_true] at h
+    split at h
+    · rename_i vs s1 heq
+      have hno := evalList_ok_noErr _ _ _ _ _ _ _ heq
+      match vs, h, hno with
+      | [w], h, hno =>
+        simp only [prim, Prod.mk.injEq, Res.val.injEq, Val.some.injEq] at h
+        obtain ⟨rfl, _⟩ := h
+        exact hno _ (by simp)
+      | [], h, _ => simp [prim] at h
+      | _ :: _ :: _, h, _ => simp [prim] at h
+    · rename_i r s1 heq
+      simp only [Prod.mk.injEq] at h
+      obtain ⟨rfl, _⟩ := h
+      exact absurd heq (fun hh => evalList_error_not_value _ _ _ _ _ _ _ hh (by simp [Val.isErr]))
+  · intro h
+    rw [builtin_strict (by decide)] at h
+    unfold strictCall at h
+    simp only [show isStrictPrim "push" = true by decide, if_true] at h
+    split at h
+    · rename_i vs s1 heq
+      have hno := evalList_ok_noErr _ _ _ _ _ _ _ heq
+      match vs, h, hno with
+      | [.arr us, w], h, hno =>
+        simp only [prim, Prod.mk.injEq, Res.val.injEq, Val.arr.injEq] at h
+        exact ⟨us, w, h.1.symm, hno _ (by simp)⟩
+      | [], h, _ => simp [prim] at h
+      | [_], h, _ => simp [prim] at h
+      | _ :: _ :: _ :: _, h, _ => simp [prim] at h
+      | [.int _, _], h, _ => simp [prim] at h
+      | [.bool _, _], h, _ => simp [prim] at h
+      | [.str _, _], h, _ => simp [prim] at h
+      | [.tup _, _], h, _ => simp [prim] at h
+      | [.clos .., _], h, _ => simp [prim] at h
+      | [.err _, _], h, _ => simp [prim] at h
+      | [.variant .., _], h, _ => simp [prim] at h
+      | [.some _, _], h, _ => simp [prim] at h
+      | [.none, _], h, _ => simp [prim] at h
+    · rename_i r s1 heq
+      simp only [Prod.mk.injEq] at h
+      obtain ⟨rfl, _⟩ := h
+      exact absurd heq (fun hh => evalList_error_not_value _ _ _ _ _ _ _ hh (by simp [Val.isErr]))
+
+
+/-- An evaluation that was not offered the tail slot never returns a tail call, and argument lists,
+defaults, declarations, calls of function values and whole programs never do — in the extended
+evaluator too (in particular the callback call of `map_or` and the payload / member-access
+positions), so every `unwrap_value` of the interpreter is applied to a value. -/
+theorem tail_never_escapes_x (fuel : Nat) (cfg : Cfg) (fr : Frame) (st : St) (a : List Val) :
+    (∀ e, (eval fuel cfg fr e false st).1 ≠ .tail a) ∧
+    (∀ f args, (builtin fuel cfg fr f args false st).1 ≠ .tail a) ∧
+    (∀ c args tail, (callVal fuel cfg fr c args tail st).1 ≠ .tail a) ∧
+    (∀ h c vs, (callUser fuel cfg h c vs st).1 ≠ .tail a) ∧
+    (∀ es, (evalList fuel cfg fr es st).1 ≠ .error (.tail a)) ∧
+    (∀ ds, (runProgram fuel cfg ds).1 ≠ .error (.tail a)) := by
+  have H := noTailAt cfg fuel
+  refine ⟨?_, ?_, ?_, ?_, ?_, ?_⟩
+  · intro e; exact (Res.isTail_false_iff _).mp (H.eval fr e false st (by simp)) a
+  · intro f args; exact (Res.isTail_false_iff _).mp (H.builtin fr f args false st (by simp)) a
+  · intro c args tail; exact (Res.isTail_false_iff _).mp (H.callVal fr c args tail st) a
+  · intro h c vs; exact (Res.isTail_false_iff _).mp (H.callUser h c vs st) a
+  · intro es h; have := H.evalList fr es st; rw [h] at this; simp [exNoTail] at this
+  · intro ds h; have := H.evalDecls { env := [], self := none, height := 0 } ds {}
+    rw [runProgram] at h; rw [h] at this; simp [exNoTail] at this
 
 end XrayModel.C06
